@@ -100,6 +100,32 @@ fn lambert_w(x: f64) -> f64 {
     w
 }
 
+/// Exact ordering of two numbers: an Integer is never rounded to a double, so
+/// neighbours beyond 2^53 stay distinguishable. NaN sorts after every number.
+fn compare(a: &Number, b: &Number) -> std::cmp::Ordering {
+    use std::cmp::Ordering;
+    fn integer_with_float(i: i64, f: f64) -> Ordering {
+        if f.is_nan() || f >= 9223372036854775808.0 {
+            return Ordering::Less;
+        }
+        if f < -9223372036854775808.0 {
+            return Ordering::Greater;
+        }
+        // |f| < 2^63: its integral part converts exactly
+        let integral = f.trunc();
+        i.cmp(&(integral as i64))
+            .then(0.0_f64.partial_cmp(&(f - integral)).unwrap_or(Ordering::Equal))
+    }
+    match (a, b) {
+        (Number::Integer(a), Number::Integer(b)) => a.cmp(b),
+        (Number::Float(a), Number::Float(b)) => a
+            .partial_cmp(b)
+            .unwrap_or_else(|| a.is_nan().cmp(&b.is_nan())),
+        (Number::Integer(a), Number::Float(b)) => integer_with_float(*a, *b),
+        (Number::Float(a), Number::Integer(b)) => integer_with_float(*b, *a).reverse(),
+    }
+}
+
 pub fn eval(expr: Node) -> Result<Number, Box<dyn error::Error>> {
     #[cfg(feature = "verif_hooks")]
     crate::verif_hooks::tick();
@@ -526,15 +552,7 @@ pub fn eval(expr: Node) -> Result<Number, Box<dyn error::Error>> {
                     let r = eval(arg)?;
                     match result {
                         Some(l) => {
-                            let lf64 = match l.clone() {
-                                Number::Float(f) => f,
-                                Number::Integer(i) => i as f64,
-                            };
-                            let rf64 = match r.clone() {
-                                Number::Float(f) => f,
-                                Number::Integer(i) => i as f64,
-                            };
-                            if lf64 < rf64 {
+                            if compare(&l, &r) == std::cmp::Ordering::Less {
                                 result = Some(l);
                             } else {
                                 result = Some(r);
@@ -562,15 +580,7 @@ pub fn eval(expr: Node) -> Result<Number, Box<dyn error::Error>> {
                     let r = eval(arg)?;
                     match result {
                         Some(l) => {
-                            let lf64 = match l.clone() {
-                                Number::Float(f) => f,
-                                Number::Integer(i) => i as f64,
-                            };
-                            let rf64 = match r.clone() {
-                                Number::Float(f) => f,
-                                Number::Integer(i) => i as f64,
-                            };
-                            if lf64 > rf64 {
+                            if compare(&l, &r) == std::cmp::Ordering::Greater {
                                 result = Some(l);
                             } else {
                                 result = Some(r);
@@ -611,18 +621,7 @@ pub fn eval(expr: Node) -> Result<Number, Box<dyn error::Error>> {
                 crate::verif_hooks::tick();
                 results.push(eval(arg)?);
             }
-            results.sort_by(|a, b| {
-                let a = match a {
-                    Number::Integer(x) => (*x) as f64,
-                    Number::Float(x) => *x,
-                };
-                let b = match b {
-                    Number::Integer(x) => (*x) as f64,
-                    Number::Float(x) => *x,
-                };
-                a.partial_cmp(&b)
-                    .unwrap_or_else(|| a.is_nan().cmp(&b.is_nan()))
-            });
+            results.sort_by(compare);
             let len = results.len();
             if len % 2 == 0 {
                 let a = results[len >> 1].clone();
